@@ -2080,6 +2080,8 @@ impl<R: Read> Vp8Decoder<R> {
 
         filter_level = filter_level.clamp(0, 63);
 
+        // Intra-coded macroblocks predict from the current frame: reference frame index 0.
+        filter_level += self.ref_delta[0];
         if macroblock.luma_mode == LumaMode::B {
             filter_level += self.mode_delta[0];
         }
